@@ -338,6 +338,10 @@ class Background2D:
             array = None
         if array is not None:
             array = np.asanyarray(array)
+            if name in ('mask', 'coverage_mask') and array.dtype != bool:
+                # a 0/1 integer mask used as an index would select
+                # rows instead of pixels
+                array = array.astype(bool)
             if array.ndim != 2:
                 raise ValueError(f'{name} must be a 2D array.')
             if shape and array.shape != self._data.shape:
